@@ -1087,6 +1087,7 @@ func (s *Session) sendResp(ctx context.Context, id string, payload xml.TokenRead
 
 	err := s.SendElement(ctx, payload, start)
 	if err != nil {
+		verifhook.Yield("sendresp.senderr")
 		return nil, err
 	}
 
@@ -1096,6 +1097,7 @@ func (s *Session) sendResp(ctx context.Context, id string, payload xml.TokenRead
 		verifhook.Yield("sendresp.received")
 		return rr, nil
 	case <-ctx.Done():
+		verifhook.Yield("sendresp.ctxdone")
 		return nil, ctx.Err()
 	}
 }
